@@ -30,6 +30,11 @@ pub fn generate(s: &mut Session, tier: &str, rng: &mut Rng) {
     let scripts = if thorough { 6 } else { 2 };
     for base in protocol_ciphers(rng) {
         for t in &transports {
+            // quick tier: the encrypted transports with one configuration per codec family
+            let family_pick = matches!((base.protocol, base.cipher, base.users.as_str()), ("shadowsocks", "aes-128-gcm", _) | ("shadowsocks", "2022-blake3-chacha20-poly1305", _) | ("vmess", "aes-128-gcm", _) | ("trojan", _, _));
+            if !thorough && matches!(*t, "tls" | "wss" | "quic") && !family_pick {
+                continue;
+            }
             let cfg = base.with(t);
             s.begin_case(&format!("config:{}", cfg.label()));
             let Some(w) = cfg.start(s, false, 4) else {
@@ -46,6 +51,15 @@ pub fn generate(s: &mut Session, tier: &str, rng: &mut Rng) {
                     check(s, &cfg.label(), &op, &r, target_first);
                     s.count(&format!("flow:{}:{}:{}", kind, t, if target_first { "target-first" } else { "app-first" }));
                 }
+            }
+            // the application sends and closes at once: everything it wrote still reaches the target, then the end
+            for kind in KINDS {
+                let op = format!("e2e.tcp {} kind={} host=127.0.0.1 up={} down=10 seed={} close=app-early", w, kind, sizes(rng, max_total), rng.below(1 << 40));
+                let r = s.run(&op);
+                if field(&r, "up") != "ok" || field(&r, "target-eof") != "1" {
+                    s.oracle_fail(&format!("early-close:{}", cfg.label()), &format!("{}: the application wrote and closed at once; its bytes did not all reach the target before the end: `{}`", op, r));
+                }
+                s.count(&format!("flow:{}:{}:app-early", kind, t));
             }
             // several flows at once through the same client and server
             let n = if thorough { 16 } else { 4 };
